@@ -119,16 +119,15 @@ RangeToken* RangeTokenMap::getRange(const XMLCh* const keyword,
         return 0;
 
     RangeTokenElemMap* elemMap = fTokenRegistry->get(keyword);
+
+    // complement ranges are created lazily below; reading the slot without the
+    // lock would race with such a creation in another thread
+    XMLMutexLock lockInit(&fMutex);
+
     RangeToken* rangeTok = elemMap->getRangeToken(complement);
 
     if (!rangeTok)
     {
-        XMLMutexLock lockInit(&fMutex);
-
-        // make sure that it was not created while we were locked
-        rangeTok = elemMap->getRangeToken(complement);
-
-        if (!rangeTok)
         {
             unsigned int categId = elemMap->getCategoryId();
             const XMLCh* categName = fCategories->getValueForId(categId);
